@@ -274,6 +274,51 @@ def run_case(case, ctx):
                     if k == 3 * d + 1 else 'first-forward-request'
                     if k == 2 * d + 1 else 'other-request'))
 
+    # (1b') a cached run that is interrupted (objective gives up / budget):
+    # the dictionary holds exactly the evaluated index -> value pairs, no
+    # more (no entries for requests that were never answered), and can be
+    # handed to a continuation run
+    K_ = len(cached.batches)
+    if K_ >= 2:
+        for how in ('none', 'budget'):
+            kk = int(rng.integers(1, K_ + 1))
+            cch = {}
+            if how == 'none':
+                runi = crossh.execute(crossh.Run(T, none_at=kk), Y0,
+                    cache=cch, **kw)
+            else:
+                mm = int(sum(len(b) for b in cached.batches[:kk])) - 1
+                if mm < 1:
+                    continue
+                runi = crossh.execute(crossh.Run(T), Y0, cache=cch,
+                    **dict(kw, m=mm))
+            if runi.error is not None:
+                if isinstance(runi.error, crossh.Abort):
+                    continue
+                raise runi.error
+            rows_i = {tuple(int(x) for x in r_) for b in runi.batches
+                for r_ in b}
+            okc = set(cch.keys()) == rows_i and all(type(cch[k_]) is float
+                and cch[k_] == float(T[k_]) for k_ in rows_i)
+            ctx.check('cache-contents', okc, lambda: f'cached run interrupted '
+                f'({how}, stop {runi.info.get("stop")!r}): the dictionary '
+                f'holds {len(cch)} keys, {len(rows_i)} indices were '
+                f'evaluated; non-float values: '
+                f'{sum(1 for v_ in cch.values() if type(v_) is not float)}')
+            ctx.check('cache-counters', runi.info['m'] == runi.evaluated,
+                f'interrupted cached run: info["m"] = {runi.info["m"]}, '
+                f'{runi.evaluated} evaluated')
+            # continuation with the same dictionary
+            cont = crossh.execute(crossh.Run(T), Y0, cache=cch, **kw)
+            if cont.error is not None:
+                if not isinstance(cont.error, crossh.Abort):
+                    raise cont.error
+            elif cached.info['stop'] != 'conv' and cont.info['stop'] != 'conv':
+                ctx.check('cache-same-cores', same_cores(cont.result,
+                    plain.result), 'a run continued on the dictionary of an '
+                    'interrupted run differs from the run without cache')
+            ctx.event('interrupted-cached-run-' + how)
+
     # (1c) nswp = 0: only the pre-iteration, no evaluation; info and cache
     # must still describe the returned tensor
     kw0 = {k: v for k, v in kw.items() if k not in ('nswp', 'e')}
